@@ -72,3 +72,22 @@ func symClock(on bool)
 // pickU64 fixes x to some value the current path allows, without exploring the other values.
 // Only for existential witnesses: the harness needs some value, not every value.
 func pickU64(x uint64) uint64
+
+// concurrent(p) enters the executor's concurrent mode: goroutines started by `go` are
+// interleaved at synchronisation operations, with at most p preemptive context switches.
+func concurrent(p int)
+
+// concRounds is how often a concurrent scenario is repeated (1 under gosym; natively
+// $VERIF_ROUNDS, so that the race detector sees many real schedules).
+func concRounds() int
+
+// barrierReset/Wait/Open: a start barrier for natively running goroutines (no-ops under gosym).
+func barrierReset()
+func barrierWait()
+func barrierOpen()
+
+// hLock/hUnlock protect the harness's own bookkeeping natively; under gosym they are no-ops
+// (one goroutine executes at a time and harness code is not watched by the race monitor),
+// so that the harness adds no happens-before edges of its own.
+func hLock()
+func hUnlock()
